@@ -324,7 +324,7 @@ PROPERTIES = {
                 "polygonal cube that goes through the reconstruction): every token deleted / duplicated / replaced by each of 15 hostile "
                 "values, every line replaced by 7 inconsistent count lines, every section removed / swapped, truncation at (every) byte "
                 "offset; every XML element removed / duplicated / emptied / self-closed / replaced by 22 hostile texts, every tag deleted, "
-                "every section removed or emptied; each mutant goes through the real start-up in the sanitized child; an input that start-up accepts must have been turned into cells that are closed surfaces with consistent bookkeeping (independent topology oracle, combinatorial clauses). (a) libFuzzer (clang, "
+                "every section removed or emptied; every numerical parameter additionally replaced by the 22 hostile texts with the initial triangulation switched on (polygonal cube), so that hostile edge lengths and cut-offs reach the sampling grids and the ball pivoting; each mutant goes through the real start-up in the sanitized child; an input that start-up accepts must have been turned into cells that are closed surfaces with consistent bookkeeping (independent topology oracle, combinatorial clauses). (a) libFuzzer (clang, "
                 "ASan+UBSan) on three targets with semantic oracles, half of the workers from the committed seeds and half from an empty "
                 "corpus. Non-trivial = a mutant that gets past the first syntactic check (completes, or fails with anything but the "
                 "header / file-not-found message), or a coverage-increasing fuzz input; distinct = mutation description / corpus file.",
